@@ -34,7 +34,12 @@ operation by operation, with the Lean model's local AND remote step functions, o
     and leave_lock_in_place, set_last_revision_info, tag set / delete, config set / get, get_parent_map, fetch of a
     revision with its ancestry, reads) — remote step = wire encoding -> server step -> wire decoding;
   * "msession": lock-scope sessions over the operations of Model/C32S.lean (lock_write / lock_read / unlock on the
-    long-lived object, last_revision_info, fetch + set_last_revision_info, pull with source tags, tag set / read).
+    long-lived object, lock_write(token) with the remembered or a never-issued token, leave_lock_in_place /
+    dont_leave_lock_in_place, a SECOND holder object that takes and releases the physical lock, last_revision_info,
+    fetch + set_last_revision_info, pull with source tags, tag set / read).  The scripts are built from lock-cycle
+    phrases (own, read, borrow with the holder's token, borrow and release, leave and adopt again, nested, contention,
+    wrong / stale token, lent) with other operations in and between them; the physical lock status
+    (get_physical_lock_status on the LOCAL path) is observed after every step on both sides and compared with the model.
     Besides results and the final stored state, the object's PRIVATE lock state and caches after EVERY operation
     (`_lock_mode`, `_lock_count`, `_last_revision_info_cache`, `_tags_bytes`, `_real_branch is not None` and the VFS
     branch's two caches) are compared with the model's `Obj`, and the model's cache-free specification run must
@@ -82,6 +87,12 @@ Second round (lock-scope sessions; all on top of the proposed tag-cache fix, all
   M14 set_last_revision_info does not refresh the RemoteBranch's tip cache  -> push / tip after a tip change
   (seed) set_last_revision_info clears only its own caches, no priming      -> pull accepted where local diverges
   H2  VFS branch primed before the post-change hooks run (harmless)         -> clean
+Third round (token locks):
+  (seed b) RemoteBranch.lock_write() without a token no longer resets _leave_lock -> state:phys,locked after the unlock
+           of an own lock cycle that follows a borrowed (token) cycle on the same object; later lockers get contention
+  M15 RemoteBranch.unlock ignores _leave_lock (always sends Branch.unlock)   -> state:phys after the borrower's unlock
+  M16 lock_write(token) does not set _leave_lock                            -> state:phys after the borrower's unlock
+  M17 dont_leave_lock_in_place is a no-op                                   -> state:phys after adopt + dont_leave + unlock
 """
 import json
 import os
@@ -97,7 +108,10 @@ THEOREMS = ["remote_step_refines_local", "remote_step_refines_local_partial", "p
             "remote_session_refines_local", "remote_session_refines_local_partial", "fresh_remote_session_refines_local",
             "fresh_remote_session_refines_local_partial", "session_caches_scoped",
             "local_session_caches_scoped", "seeded_variant_invisible_without_lock_scope", "stale_tip_cache_witness",
-            "stale_tags_cache_witness", "stale_vfs_tags_cache_witness", "spec_unlocked_eq_localStep_tagSet",
+            "stale_tags_cache_witness", "stale_vfs_tags_cache_witness",
+            # token locks, the leave flag, a second holder of the physical lock
+            "remote_session_no_orphaned_lock", "physical_lock_free_when_nobody_holds", "untokened_lock_clears_leave_flag",
+            "last_unlock_releases", "stale_leave_flag_witness", "spec_unlocked_eq_localStep_tagSet",
             "spec_unlocked_eq_localStep_reads"]
 RULE = ("case = an operation script of <= 22 operations (commit in source trees / through a lightweight checkout, "
         "merge, source tags, push into / from the target, pull, fetch, tag set/delete, config set/get, lock/unlock with "
@@ -190,6 +204,9 @@ class Side:
         self.K = None
         self._T = None
         self.held = []          # (branch object, token) of locks taken by the script
+        self.H = None           # a SECOND holder object of the target (owns the physical lock for a while)
+        self.owner_tok = None
+        self.known_token = None  # the token the script remembers: last untokened lock_write() by anyone
         self.transports = []
         self.tcache = {}        # revision id -> testament sha1 (revisions are immutable)
 
@@ -208,7 +225,7 @@ class Side:
         return self.world.src(which)
 
     def close(self):
-        for b, _ in self.held:
+        for b, _ in self.held + ([(self.H, None)] if self.H is not None else []):
             try:
                 while b.is_locked():
                     b.unlock()
@@ -316,6 +333,8 @@ def do_op(side, op, n):
             t = side.T()
             tok = t.lock_write().token if op[1] == "w" else (t.lock_read(), None)[1]
             side.held.append((t, tok))
+            if op[1] == "w":
+                side.known_token = tok
             return "token" if tok else "no-token"
         if k == "set_tip_fetch":
             _, which, revno, revid = op
@@ -491,7 +510,7 @@ def do_op(side, op, n):
             return "ok"
         if k.startswith("m_"):
             return do_model_op(side, op)
-        if k.startswith("s_"):
+        if k.startswith("s_") or k.startswith("owner_"):
             return do_session_op(side, op)
         raise AssertionError("unknown op %r" % (op,))
     except (KeyboardInterrupt, SystemExit, AssertionError):
@@ -567,9 +586,53 @@ def do_session_op(side, op):
         if op[1] == "w":
             tok = t.lock_write().token
             side.held.append((t, tok))
+            side.known_token = tok
             return "token" if tok else "no-token"
         t.lock_read()
         side.held.append((t, None))
+        return "ok"
+    if k == "s_lock_tok":
+        # lock_write(token): the token the script remembers (the second holder's, or the object's own one that
+        # was left in place), or one that was never issued
+        tok = (side.known_token or b"never-issued") if op[1] else b"never-issued"
+        r = t.lock_write(token=tok).token
+        side.held.append((t, r))
+        return "token" if r else "no-token"
+    if k in ("s_leave", "s_dont_leave"):
+        # only meaningful on a write-locked object (the local LockDir would silently record the flag for the
+        # next lock cycle, RemoteBranch raises NotImplementedError): guarded here, mirrored by the model
+        if not (t.is_locked() and t.peek_lock_mode() == "w"):
+            return "E:NotWriteLocked"
+        if k == "s_leave":
+            t.leave_lock_in_place()
+        else:
+            t.dont_leave_lock_in_place()
+        return "ok"
+    if k == "owner_lock":
+        from breezy.branch import Branch
+        if side.H is None:
+            side.H = Branch.open(side.t_url, possible_transports=side.transports)
+        if side.H.is_locked():
+            return "E:OwnerBusy"
+        tok = side.H.lock_write().token
+        side.owner_tok = side.known_token = tok
+        return "token" if tok else "no-token"
+    if k == "owner_unlock":
+        from breezy.branch import Branch
+        if side.H is None or not side.H.is_locked():
+            return "E:OwnerNotHeld"
+        if t.is_locked() and t.peek_lock_mode() == "w" and _obj_token(t) == side.owner_tok:
+            return "E:OwnerLent"          # the object under test currently borrows this lock
+        info = Branch.open(side.t_path).control_files._lock.peek()
+        if info is None or info.nonce != side.owner_tok:
+            # the lock was released by a borrower (dont_leave_lock_in_place): forget it without comparing how
+            # the two LockDir / RPC paths complain
+            try:
+                side.H.unlock()
+            except Exception:
+                pass
+            return "E:OwnerLockGone"
+        side.H.unlock()
         return "ok"
     if k == "s_unlock":
         t.unlock()
@@ -596,6 +659,12 @@ def do_session_op(side, op):
     raise AssertionError("unknown op %r" % (op,))
 
 
+def _obj_token(t):
+    if hasattr(t, "_real_branch"):
+        return t._lock_token
+    return t.control_files._token_from_lock
+
+
 def obj_snapshot(side):
     """lock state and caches of the long-lived target object (private attributes of BzrBranch /
     RemoteBranch and of its VFS branch), in the notation of the Lean driver"""
@@ -613,10 +682,12 @@ def obj_snapshot(side):
     real = getattr(t, "_real_branch", None)
     if hasattr(t, "_real_branch"):
         mode, cnt = (t._lock_mode or "u"), max(t._lock_count, 0)
+        leave = t._leave_lock
     else:
         cnt = t.control_files._lock_count
         mode = (t.control_files._lock_mode or "u") if cnt else "u"
-    return "%s%d/%s/%s/%s/%s/%s" % (mode, cnt, tip(t._last_revision_info_cache), tags(t), "T" if real is not None else "F",
+        leave = t.control_files._lock._locked_via_token
+    return "%s%d%s/%s/%s/%s/%s/%s" % (mode, cnt, "L" if mode == "w" and leave else "", tip(t._last_revision_info_cache), tags(t), "T" if real is not None else "F",
                                      tip(real._last_revision_info_cache) if real is not None else "~",
                                      tags(real) if real is not None else "~")
 
@@ -644,6 +715,7 @@ def readback(side, full=False):
             tm[r] = side.tcache[r]
         out["testaments"] = canon(tm)
         out["parent"] = mask(side, canon(b.get_parent()))
+        out["phys"] = bool(b.get_physical_lock_status())
     conf = {}
     try:
         st = Branch.open(side.t_path).get_config_stack()
@@ -674,7 +746,7 @@ CONF_NAMES = ["foo", "push_location", "my.opt", "child_submit_to", "append_revis
 CONF_VALUES = ["bar", "a b", "café", "x,y", "  padded ", "q\"uote", "True", "", "#hash", "it's", "a=b", "[sec]",
                "line1\\nline2", "semi;colon"]
 FILES = ["f", "g", "dir-less h", "é"]
-REMOTE_OPS = {"s_lock", "s_set_tip", "s_pull", "s_tag_set", "hold", "push_from_T", "set_tip_fetch", "m_fetch", "m_tip_set", "m_tag_set", "m_tag_del", "m_conf_set", "m_lock_leave", "m_relock_release",
+REMOTE_OPS = {"s_lock_tok", "owner_lock", "owner_unlock", "s_leave", "s_dont_leave", "s_lock", "s_set_tip", "s_pull", "s_tag_set", "hold", "push_from_T", "set_tip_fetch", "m_fetch", "m_tip_set", "m_tag_set", "m_tag_del", "m_conf_set", "m_lock_leave", "m_relock_release",
               "m_tip_set_tok", "push", "pull_into_T", "fetch_to_T", "tag_set", "tag_delete", "conf_set", "conf_set_old", "set_tip",
               "gen_history", "ck_commit", "lock", "unlock", "set_parent", "lock_with_token", "break_lock"}
 
@@ -855,6 +927,9 @@ def gen_session_script(rng, length):
         ops.append(("push", "A", False, dag.pick(rng, "A")[2] if rng.random() < 0.5 else None))
     depth = 0
     mode = None
+    # half of the sessions use tokens and a second holder: their lock operations come from a plan of lock cycles
+    plan = [o for o in _lock_plan(rng, 4) if o is not BODY] if rng.random() < 0.5 else None
+    sim = plan
 
     def anyrev(p_missing=0.05):
         if rng.random() < p_missing:
@@ -863,7 +938,13 @@ def gen_session_script(rng, length):
 
     while len(ops) < length:
         x = rng.random()
-        if depth == 0 and x < 0.55:
+        if plan and x < 0.33:
+            o = plan.pop(0)
+            ops.append(("unlock", False) if o == ("s_unlock",) else ("hold", o[1]) if o[0] == "s_lock" else o)
+            continue
+        if sim is not None:
+            x = 0.08 + x * 0.92            # the plain hold / unlock branches below are not used
+        if depth == 0 and x < 0.55 and sim is None:
             mode = "w" if rng.random() < 0.85 else "r"
             ops.append(("hold", mode))
             depth = 1
@@ -915,8 +996,122 @@ def gen_session_script(rng, length):
     return ops
 
 
+class _LockSim:
+    """what the generator expects of the locks while it writes a session (exact for correct code; every
+    operation is guarded in the harness, so a wrong guess only costs a wasted step)"""
+
+    def __init__(self):
+        self.mode, self.depth, self.borrowed, self.leave = None, 0, False, False
+        self.H = False          # the second holder object holds the physical lock
+        self.left = False       # a physical lock was left in place by leave_lock_in_place() + unlock
+
+    def lock_ops(self, rng):
+        """the next lock-related operation, biased towards the cycles that matter: borrow the holder's lock
+        with its token and give it back, let the holder release, take and release a lock of one's own, let
+        anybody lock again; leave a lock in place, adopt it again with the token, release it for good"""
+        x = rng.random()
+        if self.mode is None:
+            if self.H:
+                if x < 0.6:
+                    self.mode, self.depth, self.borrowed, self.leave = "w", 1, True, True
+                    return ("s_lock_tok", True)
+                if x < 0.85:
+                    self.H = False
+                    return ("owner_unlock",)
+                return rng.choice([("s_lock", "w"), ("s_lock_tok", False), ("owner_lock",)])
+            if self.left:
+                if x < 0.7:
+                    self.mode, self.depth, self.borrowed, self.leave, self.left = "w", 1, True, True, False
+                    return ("s_lock_tok", True)
+                return rng.choice([("s_lock", "w"), ("owner_lock",), ("s_lock_tok", False)])
+            if x < 0.55:
+                self.mode, self.depth, self.borrowed, self.leave = "w", 1, False, False
+                return ("s_lock", "w")
+            if x < 0.80:
+                self.H = True
+                return ("owner_lock",)
+            if x < 0.9:
+                self.mode, self.depth = "r", 1
+                return ("s_lock", "r")
+            return rng.choice([("s_lock_tok", True), ("s_lock_tok", False), ("owner_unlock",), ("s_unlock",)])
+        if self.mode == "r":
+            if x < 0.6:
+                self.depth -= 1
+                if not self.depth:
+                    self.mode = None
+                return ("s_unlock",)
+            if x < 0.8:
+                self.depth += 1
+                return ("s_lock", "r")
+            return rng.choice([("s_lock", "w"), ("s_leave",), ("owner_lock",)])
+        # write-locked
+        if x < 0.5:
+            self.depth -= 1
+            if not self.depth:
+                self.mode = None
+                if self.leave and not self.borrowed:
+                    self.left = True
+                if self.borrowed and not self.leave:
+                    self.H = False          # the borrower released the holder's lock: the holder finds it gone
+                self.borrowed = False
+            return ("s_unlock",)
+        if x < 0.62:
+            self.leave = True
+            return ("s_leave",)
+        if x < 0.74:
+            self.leave = False
+            return ("s_dont_leave",)
+        if x < 0.86:
+            self.depth += 1
+            return rng.choice([("s_lock", "w"), ("s_lock_tok", True), ("s_lock", "r")])
+        return rng.choice([("owner_lock",), ("owner_unlock",), ("s_lock_tok", False)])
+
+
+BODY = ("BODY",)
+
+LOCK_PHRASES = [
+    # one lock cycle of the long-lived object, or of the second holder, with slots for other operations
+    ("own", [("s_lock", "w"), BODY, BODY, ("s_unlock",)]),
+    ("own", [("s_lock", "w"), BODY, ("s_unlock",)]),
+    ("read", [("s_lock", "r"), BODY, ("s_unlock",)]),
+    ("borrow", [("owner_lock",), ("s_lock_tok", True), BODY, ("s_unlock",), ("owner_unlock",)]),
+    ("borrow", [("owner_lock",), BODY, ("s_lock_tok", True), ("s_unlock",), BODY, ("owner_unlock",)]),
+    ("borrow", [("owner_lock",), ("s_lock_tok", True), ("s_unlock",), ("owner_unlock",), BODY]),
+    ("borrow-release", [("owner_lock",), ("s_lock_tok", True), ("s_dont_leave",), BODY, ("s_unlock",), ("owner_unlock",)]),
+    ("leave-adopt", [("s_lock", "w"), ("s_leave",), BODY, ("s_unlock",), ("s_lock_tok", True), BODY, ("s_dont_leave",),
+                     ("s_unlock",)]),
+    ("leave-adopt-leave", [("s_lock", "w"), ("s_leave",), ("s_unlock",), BODY, ("s_lock_tok", True), ("s_unlock",)]),
+    ("leave-undone", [("s_lock", "w"), ("s_leave",), BODY, ("s_dont_leave",), ("s_unlock",)]),
+    ("nested", [("s_lock", "w"), ("s_lock", "w"), BODY, ("s_unlock",), BODY, ("s_unlock",)]),
+    ("nested-token", [("owner_lock",), ("s_lock_tok", True), ("s_lock_tok", True), BODY, ("s_unlock",), ("s_unlock",),
+                      ("owner_unlock",)]),
+    ("contention", [("owner_lock",), ("s_lock", "w"), BODY, ("owner_unlock",)]),
+    ("wrong-token", [("owner_lock",), ("s_lock_tok", False), BODY, ("owner_unlock",)]),
+    ("stale-token", [("owner_lock",), ("owner_unlock",), ("s_lock_tok", True), BODY]),
+    ("lent", [("owner_lock",), ("s_lock_tok", True), ("owner_unlock",), BODY, ("s_unlock",), ("owner_unlock",)]),
+]
+
+
+def _lock_plan(rng, n_phrases, noise=0.08):
+    """a sequence of lock cycles (phrases) of ONE long-lived object and of a second holder, with BODY slots
+    between and inside them; a little noise (single lock operations out of place)"""
+    sim = _LockSim()
+    plan = [BODY] if rng.random() < 0.4 else []
+    for _ in range(n_phrases):
+        name, phrase = rng.choice(LOCK_PHRASES)
+        for o in phrase:
+            if o is not BODY and rng.random() < noise:
+                plan.append(sim.lock_ops(rng))
+            plan.append(o)
+        for _ in range(rng.randint(0, 2)):
+            plan.append(BODY)
+    return plan
+
+
 def gen_msession_script(rng, length):
-    """lock-scope sessions over exactly the operations of Model/C32S.lean"""
+    """lock-scope sessions over exactly the operations of Model/C32S.lean: lock cycles of the long-lived object
+    (with and without tokens, leave / dont_leave, nested, read) and of a second holder, with pulls, tip and tag
+    operations in and between them"""
     ops, dag = [], _Dag()
 
     def files():
@@ -926,38 +1121,36 @@ def gen_msession_script(rng, length):
     rev = dag.new("a")
     ops.append(("src_commit", "A", files(), rev))
     dag.commit("A", rev)
-    for _ in range(rng.randint(1, 4)):
+    for _ in range(rng.randint(1, 3)):
         _world_step(rng, dag, ops, files, p_tag)
-    mode, depth = None, 0
-    while len(ops) < length:
+
+    def body():
         x = rng.random()
-        if (depth == 0 and x < 0.5) or x < 0.04:
-            want = "w" if rng.random() < 0.8 else "r"
-            ops.append(("s_lock", want))
-            if depth == 0:
-                mode, depth = want, 1
-            elif not (mode == "r" and want == "w"):
-                depth += 1
-        elif x < 0.10:
-            if depth or rng.random() < 0.3:
-                ops.append(("s_unlock",))
-                depth = max(0, depth - 1)
-        elif x < 0.30:
-            ops.append(("s_pull", rng.choice(dag.trees()), rng.random() < 0.25))
-        elif x < 0.47:
+        if x < 0.30:
+            return ("s_pull", rng.choice(dag.trees()), rng.random() < 0.25)
+        if x < 0.50:
             which, revno, r = dag.pick(rng)
             y = rng.random()
             if y < 0.06:
                 r = rng.choice(["ghost-x", "null:"])
-            ops.append(("s_set_tip", which, revno if y < 0.85 else rng.randint(0, 6), r))
-        elif x < 0.60:
-            ops.append(("s_tip",))
-        elif x < 0.72:
-            ops.append(("s_tag_set", rng.choice(NAMES), dag.pick(rng)[2] if rng.random() < 0.8 else "ghost-x"))
-        elif x < 0.82:
-            ops.append(("s_tag_dict",))
-        else:
-            _world_step(rng, dag, ops, files, p_tag)
+            return ("s_set_tip", which, revno if y < 0.85 else rng.randint(0, 6), r)
+        if x < 0.62:
+            return ("s_tip",)
+        if x < 0.78:
+            return ("s_tag_set", rng.choice(NAMES), dag.pick(rng)[2] if rng.random() < 0.8 else "ghost-x")
+        if x < 0.88:
+            return ("s_tag_dict",)
+        return None          # a step on the source trees
+
+    for o in _lock_plan(rng, rng.randint(2, 4)):
+        if len(ops) >= length:
+            break
+        if o is BODY:
+            o = body()
+            if o is None:
+                _world_step(rng, dag, ops, files, p_tag)
+                continue
+        ops.append(o)
     return ops
 
 
@@ -1071,14 +1264,17 @@ def run_case(ctx, srv, script, label="general", fx=False, tv=(False, False)):
             last = i == len(script) - 1
             prev = sl
             sl, sr = readback(L, full=last), readback(R, full=last)
+            if label == "msession":
+                a, b = snaps[-1]
+                snaps[-1] = (a + "@" + ("T" if sl["phys"] else "F"), b + "@" + ("T" if sr["phys"] else "F"))
             # a local branch object that holds the write lock saves its configuration when it unlocks:
             # while the script holds a lock the config-backed fields are compared only after the release
-            skip = ("conf", "parent") if (L.held or R.held) else ()
+            skip = ("conf", "parent") if (L.held or R.held or any(x.H is not None and x.H.is_locked() for x in (L, R))) else ()
             if any(sl[k] != sr.get(k) for k in sl if k not in skip):
                 keys = [k for k in sl if sl[k] != sr.get(k) and k not in skip]
                 bad = (i, "state:" + ",".join(keys), {k: sl[k] for k in keys}, {k: sr[k] for k in keys}, prev)
                 break
-        if bad is None and (L.held or R.held):
+        if bad is None and (L.held or R.held or any(x.H is not None and x.H.is_locked() for x in (L, R))):
             # release what the script still holds and compare everything once more
             for side in (L, R):
                 while side.held:
@@ -1088,6 +1284,11 @@ def run_case(ctx, srv, script, label="general", fx=False, tv=(False, False)):
                             b.unlock()
                     except Exception:
                         pass
+                try:
+                    while side.H is not None and side.H.is_locked():
+                        side.H.unlock()
+                except Exception:
+                    pass
             fl, fr = readback(L, full=True), readback(R, full=True)
             if fl != fr:
                 keys = [k for k in fl if fl[k] != fr.get(k)]
@@ -1198,6 +1399,16 @@ def enc_sop(i, op, aux):
         return "lw" if op[1] == "w" else "lr"
     if k == "s_unlock":
         return "ul"
+    if k == "s_lock_tok":
+        return "lt:%s" % ("T" if op[1] else "F")
+    if k == "s_leave":
+        return "lv"
+    if k == "s_dont_leave":
+        return "dl"
+    if k == "owner_lock":
+        return "ol"
+    if k == "owner_unlock":
+        return "ou"
     if k == "s_tip":
         return "tp"
     if k == "s_set_tip":
@@ -1308,7 +1519,7 @@ def _lock_scope_start(script, i):
     """index of the operation that opened the lock scope operation i runs in (None: no scope open)"""
     depth, start = 0, None
     for j, o in enumerate(script[:i]):
-        if o[0] in ("hold", "s_lock", "lock", "lock_again", "lock_with_token"):
+        if o[0] in ("hold", "s_lock", "s_lock_tok", "lock", "lock_again", "lock_with_token"):
             if depth == 0:
                 start = j
             depth += 1
@@ -1463,7 +1674,7 @@ def run(ctx):
     ctx.extra["corpus_cases"] = len(items)
     items += [("general", gen_script(ctx.rng, ctx.rng.randint(6, 20))) for _ in range(ctx.pick(16, 200))]
     items += [("modelled", gen_model_script(ctx.rng, ctx.rng.randint(8, 20))) for _ in range(ctx.pick(16, 200))]
-    items += [("msession", gen_msession_script(ctx.rng, ctx.rng.randint(10, 22))) for _ in range(ctx.pick(16, 200))]
+    items += [("msession", gen_msession_script(ctx.rng, ctx.rng.randint(14, 24))) for _ in range(ctx.pick(16, 200))]
     items += [("session", gen_session_script(ctx.rng, ctx.rng.randint(12, 22))) for _ in range(ctx.pick(16, 200))]
     nproc = 8
     chunks = [(fx, tv, items[i::nproc]) for i in range(nproc)]
